@@ -391,7 +391,7 @@ func TestC06(t *testing.T) {
 			return f
 		}
 		var sb strings.Builder
-		shape := rapid.SampledFrom([]string{"values", "in", "set-literal", "list-literal", "map-literal", "set-list", "tuple", "batch"}).Draw(rt, "shape")
+		shape := rapid.SampledFrom([]string{"values", "in", "set-literal", "list-literal", "map-literal", "set-list", "tuple", "batch", "relations", "tuple-relations", "batch-tuple-relations"}).Draw(rt, "shape")
 		switch shape {
 		case "values":
 			sb.WriteString("INSERT INTO ks.t (")
@@ -428,6 +428,22 @@ func TestC06(t *testing.T) {
 				fmt.Fprintf(&sb, "c%d = %s%s", i, item(i), map[bool]string{true: ", ", false: ""}[i < n-1])
 			}
 			sb.WriteString(" WHERE k = 1")
+		case "relations": // many ANDed relations of every shape
+			sb.WriteString("DELETE FROM ks.t WHERE ")
+			for i := 0; i < n; i++ {
+				fmt.Fprintf(&sb, "c%d = %s%s", i, item(i), map[bool]string{true: " AND ", false: ""}[i < n-1])
+			}
+		case "tuple-relations": // multi-column relations
+			sb.WriteString("UPDATE ks.t SET v = 1 WHERE ")
+			for i := 0; i < n; i++ {
+				fmt.Fprintf(&sb, "(a%d, b%d) = (%s, %d)%s", i, i, item(i), i, map[bool]string{true: " AND ", false: ""}[i < n-1])
+			}
+		case "batch-tuple-relations":
+			sb.WriteString("BEGIN UNLOGGED BATCH ")
+			for i := 0; i < n; i++ {
+				fmt.Fprintf(&sb, "DELETE FROM ks.t WHERE id = %d AND (day, seq) IN ((%s, %d)); ", i, item(i), i)
+			}
+			sb.WriteString("APPLY BATCH")
 		case "batch":
 			sb.WriteString("BEGIN BATCH ")
 			for i := 0; i < n; i++ {
